@@ -209,3 +209,78 @@ func VerifH_C07_Request() {
 	}
 	vObserve("rows", len(res))
 }
+
+// VerifH_C08_Group — grouping: User(groupBy: [age]) { age _group { name } _count(_group: {}) } over three documents with
+// age null or 0..1: one row per distinct age (null is a group of its own), each listing exactly the documents of that
+// age, its count their number. conf: idx (index bits; 2 = index on User.age)
+func VerifH_C08_Group() {
+	e := qNewEnv(vConfInt("idx"))
+	ids := []string{qUserIDs[0], qUserIDs[1], "bae-00000000-0000-0000-0000-0000000000a2"}
+	var null [3]bool
+	var age [3]int64
+	for i := range ids {
+		null[i], age[i] = vChoose("null", 2) == 1, int64(vChoose("age", 2)) // concrete: the group key is formatted into a string
+		f := map[string]any{"name": "U" + string(rune('0'+i))}
+		if null[i] {
+			f["age"] = nil
+		} else {
+			f["age"] = age[i]
+		}
+		e.putDoc("User", ids[i], f)
+	}
+	sel := &request.Select{Field: request.Field{Name: "User"},
+		Groupable: request.Groupable{GroupBy: immutable.Some(request.GroupBy{Fields: []string{"age"}})},
+		ChildSelect: request.ChildSelect{Fields: []request.Selection{qField("age"),
+			&request.Select{Field: request.Field{Name: request.GroupFieldName}, ChildSelect: request.ChildSelect{Fields: []request.Selection{qField("name")}}},
+			&request.Aggregate{Field: request.Field{Name: request.CountFieldName}, Targets: []*request.AggregateTarget{{HostName: request.GroupFieldName}}}}}}
+	res, err := e.run(sel)
+	vCover("ran")
+	vAssert(err == nil, "query-no-error")
+	if err != nil {
+		return
+	}
+	// group key: 0, 1, or 2 for null
+	key := func(i int) int {
+		if null[i] {
+			return 2
+		}
+		return int(age[i])
+	}
+	var size [3]int
+	for i := range ids {
+		size[key(i)]++
+	}
+	groups := 0
+	for k := range size {
+		if size[k] > 0 {
+			groups++
+		}
+	}
+	vAssert(len(res) == groups, "one-row-per-distinct-group-key")
+	var seen [3]int
+	for _, row := range res {
+		k := 2
+		if a, ok := row["age"].(int64); ok {
+			k = int(a & 1)
+		}
+		seen[k]++
+		members, _ := row[request.GroupFieldName].([]map[string]any)
+		vAssert(len(members) == size[k], "group-lists-exactly-its-documents")
+		for _, m := range members {
+			n, _ := m["name"].(string)
+			found := false
+			for i := range ids {
+				if n == "U"+string(rune('0'+i)) && key(i) == k {
+					found = true
+				}
+			}
+			vAssert(found, "group-lists-exactly-its-documents")
+		}
+		cnt, _ := row[request.CountFieldName].(int)
+		vAssert(cnt == size[k], "count-of-a-group-is-its-size")
+	}
+	for k := range size {
+		vAssert(seen[k] <= 1, "one-row-per-distinct-group-key")
+	}
+	vObserve("rows", len(res))
+}
